@@ -33,18 +33,15 @@ Scn(cfg, a1, a2, f1, f2, cancel) ==
   [via |-> "srv", entry |-> cfg.entry, s2s |-> cfg.s2s, notls |-> cfg.notls, nolookup |-> cfg.nolookup, tlscfg |-> cfg.tlscfg,
    idn |-> cfg.idn, dns |-> [xmpps |-> a1, xmpp |-> a2], fb |-> [xmpps |-> f1, xmpp |-> f2], cancel |-> cancel,
    insecure |-> FALSE, doc |-> "ok", links |-> <<>>]
-FbMatters(cfg, a) == cfg.nolookup \/ a.t \in {"nf", "nodata", "err"}
-(* the product, without the dimensions a configuration makes irrelevant *)
+FbMatters(sc, a) == sc.nolookup \/ a.t \in {"nf", "nodata", "err"}
+(* dimensions a configuration makes irrelevant are held at one value *)
+Canon(sc) ==
+  /\ (sc.notls \/ sc.nolookup) => sc.dns.xmpps = NoAns
+  /\ sc.nolookup => sc.dns.xmpp = NoAns
+  /\ sc.fb.xmpps # "refuse" => (~sc.notls /\ FbMatters(sc, sc.dns.xmpps))
+  /\ sc.fb.xmpp # "refuse" => FbMatters(sc, sc.dns.xmpp)
 SrvProduct(cfgs, A1, A2) ==
-  UNION {
-    LET B1 == IF cfg.notls \/ cfg.nolookup THEN {NoAns} ELSE A1
-        B2 == IF cfg.nolookup THEN {NoAns} ELSE A2 IN
-    UNION {
-      {Scn(cfg, a1, a2, f1, f2, NoCancel) :
-         f1 \in (IF ~cfg.notls /\ FbMatters(cfg, a1) THEN {"tls", "plain", "refuse"} ELSE {"refuse"}),
-         f2 \in (IF FbMatters(cfg, a2) THEN {"plain", "refuse"} ELSE {"refuse"})}
-      : a1 \in B1, a2 \in B2}
-    : cfg \in cfgs}
+  {sc \in {Scn(cfg, a1, a2, f1, f2, NoCancel) : cfg \in cfgs, a1 \in A1, a2 \in A2, f1 \in {"tls", "plain", "refuse"}, f2 \in {"plain", "refuse"}} : Canon(sc)}
 
 (* every place the scenario's context can be cancelled at *)
 IdsOf(sc) ==
@@ -57,14 +54,9 @@ WithCancel(S) ==
     \cup {[sc EXCEPT !.cancel = [at |-> "hello", c |-> c]] : c \in {d \in IdsOf(sc) \cup {10} : d < 20}}
     : sc \in S}
 
-SrvSmall == SrvProduct(ConfigsAll \cup ConfigsIDN, SmallTls, SmallPlain)
-SrvCancel == WithCancel(SrvProduct({Base, Cfg("dialserver", TRUE, FALSE, FALSE, "custom", FALSE)}, SmallTls, SmallPlain))
-SrvQuick == SrvProduct({Base}, AnsUpTo(KTls, 2), AnsUpTo(KPlain, 2)) \cup SrvSmall \cup SrvCancel
-SrvFull == SrvQuick \cup SrvProduct({Base, Cfg("dial", TRUE, FALSE, FALSE, "custom", FALSE)}, AnsUpTo({"tls", "tlsbad", "refuse"}, 3), AnsUpTo({"plain", "refuse"}, 3))
-           \cup SrvProduct(ConfigsAll, AnsUpTo({"tls", "tlsbad", "plain", "refuse"}, 2), AnsUpTo({"plain", "refuse"}, 2))
 SrvTiny == SrvProduct(ConfigsAll \cup ConfigsIDN, {A("nf", <<>>), A("dot", <<>>), A("recs", <<R(1, 0, "tlsbad"), R(2, 0, "tls")>>), A("recs", <<R(2, 0, "tls"), R(1, 5, "plain")>>)},
                       {A("nf", <<>>), A("err", <<>>), A("recs", <<R(1, 0, "refuse"), R(1, 5, "plain")>>), A("recs", <<R(2, 0, "plain"), R(1, 0, "plain")>>)})
-           \cup WithCancel(SrvProduct({Base}, {A("recs", <<R(1, 0, "tls"), R(2, 0, "tls")>>)}, {A("recs", <<R(1, 0, "plain")>>), A("nf", <<>>)}))
+CancelTiny == WithCancel(SrvProduct({Base}, {A("recs", <<R(1, 0, "tls"), R(2, 0, "tls")>>)}, {A("recs", <<R(1, 0, "plain")>>), A("nf", <<>>)}))
 
 -----------------------------------------------------------------------------
 L(rel, scheme, kind) == [rel |-> rel, scheme |-> scheme, kind |-> kind]
@@ -80,11 +72,11 @@ Docs(T, n) == {<<a>> : a \in T} \cup (IF n >= 2 THEN {<<a, b>> : a \in T, b \in 
               \cup (IF n >= 3 THEN {<<a, b, c>> : a \in T, b \in T, c \in T} ELSE {})
 WsProduct(D) == {Ws(tc, ins, "ok", d) : tc \in {"default", "custom"}, ins \in BOOLEAN, d \in D}
 WsOther == {Ws(tc, ins, doc, <<>>) : tc \in {"default", "custom"}, ins \in BOOLEAN, doc \in {"empty", "illformed", "missing", "neterr"}}
-WsQuick == WsProduct(Docs(LinkTypes, 2) \cup Docs(LinkFew, 3)) \cup WsOther
-WsFull == WsProduct(Docs(LinkTypes, 3)) \cup WsOther
 WsTiny == WsProduct(Docs(LinkFew, 2)) \cup WsOther
 
-UniQuick == SrvQuick \cup WsQuick
-UniFull == SrvFull \cup WsFull
-UniTiny == SrvTiny \cup WsTiny
+(* The universes are sequences of parts (a union of large sets of records costs TLC quadratic *)
+(* time); a scenario may occur in more than one part.                                         *)
+PartsTiny == <<SrvTiny, CancelTiny, WsTiny>>
+InitOver(parts) == \E i \in DOMAIN parts : \E sc \in parts[i] : InitWith(sc)
+SpecTiny == InitOver(PartsTiny) /\ [][Next]_vars
 =============================================================================
